@@ -150,16 +150,19 @@ Theorem C07_finished_file_carries_stream_configuration : forall b m0 ops m rs s,
 Proof. exact finished_file_carries_stream_configuration_variant. Qed.
 Print Assumptions C07_finished_file_carries_stream_configuration.
 
-(* without that proviso the statement is false (a 64 KiB SPS is accepted and its length wraps):
-   recorded finding KF-C16-3 seen through C07 *)
-Theorem C07_oversized_parameter_set_refuted :
-  ~ (forall b m0 ops m rs s, build b [] = inl m0 -> run m0 ops = (m, rs) -> In (RStats s) rs ->
-       Forall op_payload_ok ops -> len (sink_of m) < 4294967296 ->
-       (cfg_codec b = H264 \/ cfg_codec b = H265) ->
-       (match cfg_audio b with Some a => at_channels a < 65536 | None => True end) ->
-       check_C07 b ops (map class_of rs) (sink_of m) = true).
-Proof. exact finished_file_carries_stream_configuration_refuted. Qed.
-Print Assumptions C07_oversized_parameter_set_refuted.
+(* without that proviso the statement used to be false (a 64 KiB SPS was accepted and its length wrapped:
+   recorded finding KF-C16-3 seen through C07, former theorem C07_oversized_parameter_set_refuted).
+   Since commit 3b9bdbd (finish returns an error for parameter sets that do not fit avcC/hvcC's 16-bit
+   length fields) a successful finish implies that the stored parameter sets fit, and the statement holds
+   without the proviso *)
+Theorem C07_finished_file_carries_stream_configuration_unconditional : forall b m0 ops m rs s,
+  build b [] = inl m0 -> run m0 ops = (m, rs) -> In (RStats s) rs ->
+  Forall op_payload_ok ops -> len (sink_of m) < 4294967296 ->
+  (cfg_codec b = H264 \/ cfg_codec b = H265) ->
+  (match cfg_audio b with Some a => at_channels a < 65536 | None => True end) ->
+  check_C07 b ops (map class_of rs) (sink_of m) = true.
+Proof. exact finished_file_carries_stream_configuration_unconditional. Qed.
+Print Assumptions C07_finished_file_carries_stream_configuration_unconditional.
 
 From Muxide Require Export Model.Api Spec.Checks Proofs.EndToEndProofs Proofs.SyncProofs Proofs.SyncAv1Vp9Proofs.
 (* END TO END for AV1 and VP9 (no side condition on the stream): the sample entry of every finished file
